@@ -3415,6 +3415,9 @@ def gen_C17(rng):
                     o = rng.choice(old)
                     ctx.emit("attached %s" % o)
                     ctx.emit("apply %s %s union %s %s" % (ctx.fresh("x"), fname, o, e))
+                    if rng.random() < 0.6:
+                        ctx.emit("card %s" % e)
+                        ctx.emit("unaryinto %s card %s" % (o, e))
                     r2 = rng.random()
                     if r2 < 0.4:
                         ctx.emit("release %s" % o)
@@ -3452,13 +3455,14 @@ def gen_C17(rng):
                     if live:
                         o = rng.choice(live)
                         ctx.emit("apply %s %s union %s %s" % (ctx.fresh("x"), edges[o], g, o))
-                    if live and rng.random() < 0.5:
+                    if live and rng.random() < 0.85:
                         # unary operations with the detached edge as result operand, after the
                         # same operator was used with a non-edge result on a surviving forest
                         o = rng.choice(live)
                         ctx.emit("card %s" % o)
-                        ctx.emit("unaryinto %s %s %s" % (g, rng.choice(["card", "card", "copy", "compl"]), o))
+                        ctx.emit("unaryinto %s %s %s" % (g, rng.choice(["card", "card", "card", "copy", "compl"]), o))
                         ctx.emit("attached %s" % g)
+                        ctx.emit("show %s" % o)
                     if forests and rng.random() < 0.6:
                         # the same edge object is attached to a surviving forest: it must be that
                         # forest's transparent edge and hold no reference there
